@@ -1,11 +1,141 @@
-From Coq Require Import List Arith ZArith Bool Lia.
+(* C20 -- property theorems only; each is closed by a lemma of Lemmas.v / LemmasRot.v.
+   mods ranges over every set of modules of a node, ops over every history of logging requests, records,
+   *IDN? and disconnects on any number of connections; d over every directory content. *)
+From Coq Require Import List Arith ZArith Bool NArith Lia.
 Import ListNotations.
-Require Import FV.Gen.C20 FV.C20.Model.
+Require Import FV.Gen.C20 FV.C20.Model FV.C20.Lemmas FV.C20.LemmasRot FV.C20.Refuted.
 
+(* obligations on the facts regenerated from /repo (Gen/C20.v) *)
 Theorem C20_source_facts :
   log_levels_table_shape = true /\ check_level_shape = true /\ handle_shape = true /\ handle_compares_ge = true /\
   set_conn_level_shape = true /\ module_sets_own_name = true /\ set_all_iterates_all_modules = true /\
   handle_logging_shape = true /\ reset_sets_all_off = true /\ remove_calls_reset = true /\ ident_calls_reset = true /\
-  send_log_msg_shape = true /\ rollover_guard_max_days = true.
-Proof. repeat split; reflexivity. Qed.
+  send_log_msg_shape = true /\ rollover_guard_max_days = true /\ (rollover_slice_code = 0 \/ rollover_slice_code = 1).
+Proof. repeat split; try reflexivity. left; reflexivity. Qed.
+
+(* Routing, full strength and exact: after ANY history, the messages connection c gets for a record of module m
+   with level number lv are exactly [expected]: one message (c, m, name of lv) if the latest deciding request of c
+   for m (spec_choice: the specification, a scan of the history) chose a level x <= lv, nothing otherwise.
+   The statement covers level numbers without a name too (nothing is delivered: finding
+   C20/record-level-without-name, see C20_refuted_unnamed_level). *)
+Theorem C20_routing_exact : forall mods ops m lv c,
+  deliv_to c (fst (handle (run mods ops) m lv)) = expected (spec_choice mods (rev ops) m c) m lv c.
+Proof. intros; apply routing_exact. Qed.
+
+(* The property sentence "receives a log message exactly when the module is enabled and the level is at or above
+   the chosen one".  Full statement: for every lv.  Proved for every lv that has a level name (debug, comlog, info,
+   warning, error, off); the excluded class is exactly the finding above. *)
+Theorem C20_routing_except_unnamed_level : forall mods ops m lv c nm,
+  level_name lv = Some nm ->
+  (In (c, m, nm) (fst (handle (run mods ops) m lv)) <->
+   exists x, spec_choice mods (rev ops) m c = Some x /\ (x <= lv)%Z).
+Proof. intros; apply routing_iff; assumption. Qed.
+
+(* Switching off, re-identifying or disconnecting stops delivery: after a silencing operation of c for m, and as long
+   as c sends no new logging request, no record of m reaches c, whatever everybody else does. *)
+Theorem C20_stop : forall mods ops1 o ops2 m c lv,
+  silences mods o m c ->
+  (forall o', In o' ops2 -> is_logging_by c o' = false) ->
+  deliv_to c (fst (handle (run mods (ops1 ++ o :: ops2)) m lv)) = [].
+Proof. intros; apply stop_exact; assumption. Qed.
+
+(* the three ways of stopping named in the property are silencing operations *)
+Theorem C20_stop_ways : forall mods m c,
+  mem_name m mods = true ->
+  silences mods (OIdent c) m c /\ silences mods (ODisconnect c) m c /\
+  (forall spec, targets mods spec m = true -> silences mods (OLogging c spec (LStr s_off)) m c).
+Proof.
+  intros mods m c M. split; [apply silences_ident; auto|]. split; [apply silences_disconnect; auto|].
+  intros; apply silences_off; auto.
+Qed.
+
+(* Other connections are unaffected: what c' receives over a whole history is what it receives in the history from
+   which every request, *IDN? and disconnect of another connection c has been deleted. *)
+Theorem C20_others_unaffected : forall mods c c' ops,
+  c <> c' ->
+  deliv_to c' (trace_from mods [] ops) =
+  deliv_to c' (trace_from mods [] (filter (fun o => negb (by_conn c o)) ops)).
+Proof. intros mods c c' ops N. apply noninterference; auto using wf_nil. Qed.
+
+(* rejected requests (invalid level of any kind, unknown module) leave every subscription as it was *)
+Theorem C20_rejected_request_no_effect : forall mods t c spec d,
+  (forall e, check_level d = inr e -> fst (step mods t (OLogging c spec d)) = t) /\
+  (forall s, spec = Some s -> is_all spec = false -> mem_name s mods = false ->
+             step mods t (OLogging c spec d) = (t, ([], Some EKey))).
+Proof.
+  intros. split.
+  - intros e H. eapply invalid_level_no_effect; eauto.
+  - intros s E A M. subst. apply unknown_module_no_effect; auto.
+Qed.
+
+(* Rotation, whatever the slice and the retention: a rollover creates nothing but the `current` link and the file of
+   the day, and never removes the `current` link. *)
+Theorem C20_rollover_frame : forall k prefix n d date,
+  (forall e, In e (fst (do_rollover k prefix n d date)) -> In e (open_file d (log_name prefix date))) /\
+  has_name cur_name (fst (do_rollover k prefix n d date)) = true.
+Proof. intros; apply rollover_frame. Qed.
+
+(* retention 0: nothing is removed, the file of the day exists *)
+Theorem C20_retention_zero_keeps_all : forall k prefix d date,
+  do_rollover k prefix 0 d date = (open_file d (log_name prefix date), false) /\
+  (forall e, In e d -> e_name e <> cur_name -> In e (fst (do_rollover k prefix 0 d date))) /\
+  has_name (log_name prefix date) (fst (do_rollover k prefix 0 d date)) = true.
+Proof. intros; apply rollover_zero. Qed.
+
+(* Retention N > 0.  Full statement (the property): the file being written and the N-1 newest earlier files are kept and
+   only older files are removed.  The pinned source violates it in every rollover (C20_refuted_retention,
+   C20_refuted_retention_everywhere, C20_refuted_foreign_removed in Refuted.v).  Proved instead for the slice
+   files[:-max_days] (rollover_slice_code = 1, the suggested one-token repair) in directories without
+   sub-directories: a name disappears iff it is in the head of the sorted listing, exactly min(N, number of files)
+   entries of the listing stay, and every removed entry sorts below (is older than) every kept one. *)
+Theorem C20_retention_partial_repaired_slice : forall prefix n d date,
+  let d1 := open_file d (log_name prefix date) in
+  let files := listing d1 in
+  let removed := firstn (length files - S n) files in
+  let kept := skipn (length files - S n) files in
+  (forall e, In e d1 -> e_dir e = false) ->
+  snd (do_rollover SliceHead prefix (S n) d date) = false /\
+  (forall nm, has_name nm (fst (do_rollover SliceHead prefix (S n) d date)) =
+              has_name nm d1 && negb (has_name nm removed)) /\
+  length kept = Nat.min (S n) (length files) /\
+  (forall r k, In r removed -> In k kept -> name_leb (e_name r) (e_name k) = true).
+Proof. intros prefix n d date. apply head_retention. Qed.
+
+(* in both slices the newest file of the listing is the file being written when its name sorts last *)
+Theorem C20_written_file_is_last : forall prefix date d,
+  (forall e, In e (open_file d (log_name prefix date)) -> e_name e <> cur_name ->
+             name_leb (e_name e) (log_name prefix date) = true) ->
+  e_name (last (listing (open_file d (log_name prefix date))) cur_entry) = log_name prefix date.
+Proof. intros; apply last_is_written; assumption. Qed.
+
+(* non-vacuity: a history with two connections in which every clause of the property is exercised *)
+Definition mA : name := [109; 48]%N.
+Definition mB : name := [109; 49]%N.
+Definition demo_ops : list op :=
+  [OLogging 0 (Some mA) (LStr s_debug); OLogging 1 None (LStr s_warning); OEmit mA 20%Z; OEmit mB 30%Z;
+   OLogging 0 (Some mA) (LStr s_off); OEmit mA 40%Z; OIdent 1; OEmit mA 40%Z].
+Example C20_demo :
+  trace_from [mA; mB] [] demo_ops =
+  [(0, mA, s_info); (1, mB, s_warning); (1, mA, s_error)].
+Proof. vm_compute. reflexivity. Qed.
+
+Example C20_demo_rotation_repaired :
+  map e_name (sort (fst (do_rollover SliceHead frappy 2 [dated 1; dated 2; dated 3; dated 4] (date_n 5)))) =
+  [cur_name; log_name frappy (date_n 4); log_name frappy (date_n 5)].
+Proof. vm_compute. reflexivity. Qed.
+
 Print Assumptions C20_source_facts.
+Print Assumptions C20_routing_exact.
+Print Assumptions C20_routing_except_unnamed_level.
+Print Assumptions C20_stop.
+Print Assumptions C20_stop_ways.
+Print Assumptions C20_others_unaffected.
+Print Assumptions C20_rejected_request_no_effect.
+Print Assumptions C20_rollover_frame.
+Print Assumptions C20_retention_zero_keeps_all.
+Print Assumptions C20_retention_partial_repaired_slice.
+Print Assumptions C20_written_file_is_last.
+Print Assumptions C20_refuted_unnamed_level.
+Print Assumptions C20_refuted_retention.
+Print Assumptions C20_refuted_retention_everywhere.
+Print Assumptions C20_refuted_foreign_removed.
